@@ -140,6 +140,11 @@ theorem AtNow.cancelKindFor_fst {w0 w : World} (h : AtNow w0 w) (p : Pid) (act :
   unfold Sim.cancelKindFor
   exact AtNow.foldl (fun w q => by atnow) _ h
 macro_rules | `(tactic| atnow_step) => `(tactic| with_reducible apply AtNow.cancelKindFor_fst)
+theorem AtNow.cancelUserAll_fst {w0 w : World} (h : AtNow w0 w) :
+    AtNow w0 (cancelUserAll w).1 := by
+  unfold Sim.cancelUserAll
+  exact AtNow.foldl (fun w q => by atnow) _ h
+macro_rules | `(tactic| atnow_step) => `(tactic| with_reducible apply AtNow.cancelUserAll_fst)
 
 theorem AtNow.recordRes {w0 w : World} (h : AtNow w0 w) (r : Nat) : AtNow w0 (recordRes w r) := by
   unfold Sim.recordRes; atnow
